@@ -144,7 +144,7 @@ func hxCheckEnvelopeLine(line string, prefix string, want string, okParams []str
 
 func HarnessC05Envelope() {
 	n := svParam("n", 2)
-	which := svPick("field", svParam("fields", 4)) // 0 From, 1 To, 2 To followed by AddTo of another address, 3 EnvelopeFrom
+	which := svPick("field", svParam("fields", 7)) // 0 From, 1 To, 2 To followed by AddTo of another address, 3 EnvelopeFrom, 4 FromFormat, 5 AddToFormat, 6 EnvelopeFromFormat
 	lp := svBytes("lp", n)
 	for _, c := range lp {
 		svAssume(c >= 0x20)
@@ -163,6 +163,16 @@ func HarnessC05Envelope() {
 		_ = m.From("header-from@example.com")
 		err = m.EnvelopeFrom(addr)
 		_ = m.To("rcpt@example.com")
+	case 4:
+		err = m.FromFormat("Display Name", addr)
+		_ = m.To("rcpt@example.com")
+	case 5:
+		_ = m.From("sender@example.com")
+		err = m.AddToFormat("Display Name", addr)
+	case 6:
+		_ = m.From("header-from@example.com")
+		err = m.EnvelopeFromFormat("Display Name", addr)
+		_ = m.To("rcpt@example.com")
 	default:
 		_ = m.From("sender@example.com")
 		err = m.To(addr)
@@ -175,9 +185,9 @@ func HarnessC05Envelope() {
 	// the mailbox the caller put on the message, as the setter understood it
 	var want string
 	switch which {
-	case 0:
+	case 0, 4:
 		want = m.GetFrom()[0].Address
-	case 3:
+	case 3, 6:
 		want, _ = m.GetSender(false)
 	default:
 		want = m.GetTo()[0].Address
@@ -215,13 +225,13 @@ func HarnessC05Envelope() {
 		case "MAIL":
 			sawMail = true
 			w := "sender@example.com"
-			if which == 0 || which == 3 {
+			if which == 0 || which == 3 || which == 4 || which == 6 {
 				w = want
 			}
 			hxCheckEnvelopeLine(cm.line, "MAIL FROM:", w, []string{"BODY=8BITMIME", "SMTPUTF8"})
 		case "RCPT":
 			w := "rcpt@example.com"
-			if which == 1 || which == 2 {
+			if which == 1 || which == 2 || which == 5 {
 				w = want
 				if nrcpt > 0 {
 					w = "second@example.com"
